@@ -75,6 +75,9 @@ type Disk struct {
 	// at its next disk call, like a killed process.
 	owner uint64
 	dead  map[uint64]bool
+	// NoOwner disables the process-identity tracking (several goroutines share the disk
+	// and the harness itself keeps using it after a restart).
+	NoOwner bool
 	born  time.Time
 }
 
@@ -106,10 +109,12 @@ func (d *Disk) step(op, path string) (idx int, kind string, err error) {
 	if d.Crashed {
 		runtime.Goexit() // a dead process issues no more I/O (deferred unlocks run)
 	}
-	if gid := goid(); d.dead[gid] {
-		runtime.Goexit()
-	} else if d.owner == 0 {
-		d.owner = gid
+	if !d.NoOwner {
+		if gid := goid(); d.dead[gid] {
+			runtime.Goexit()
+		} else if d.owner == 0 {
+			d.owner = gid
+		}
 	}
 	idx = d.ops
 	d.ops++
